@@ -2,7 +2,10 @@
 
 package domain
 
-import "strings"
+import (
+	"bytes"
+	"strings"
+)
 
 // ---- reference (written from the property text, byte level, no strings package) ----
 
@@ -113,7 +116,7 @@ func vrtHarness_C12_mix() {
 	}
 	m.SetDefaultMatcher(names[def])
 	var rules []vrtRule
-	viaReader := vrtParam("via_reader", 0) == 1 && vrtChoice(2) == 1
+	viaReader := vrtParam("via_reader", 0) == 2 || (vrtParam("via_reader", 0) == 1 && vrtChoice(2) == 1)
 	text := "# rules\n\n"
 	for i := 0; i < K; i++ {
 		typ := only
@@ -145,6 +148,12 @@ func vrtHarness_C12_mix() {
 	}
 	if viaReader {
 		// the same rules as a text file: comment lines, blank lines, indentation, trailing blanks and comments
+		if vrtChoice(2) == 1 {
+			// ... and more text behind them than the line scanner's buffer holds (4 KiB): the scanner
+			// moves its buffer contents, which must not touch rules loaded earlier
+			text += "#" + string(bytes.Repeat([]byte{'x'}, 4200)) + "\n# end\n"
+			vrtCover("rule file larger than the scanner buffer", true)
+		}
 		line := 0
 		vrtAssume(LoadFromTextReader[int](m, strings.NewReader(text), func(s string) (string, int, error) { line++; return s, line, nil }) == nil)
 		vrtCover("rules loaded from a text reader", true)
